@@ -797,8 +797,20 @@ class C03(Check):
                     # gcc and the implementation agree against S: the hide-set corner (see in_domain)
                     self.oracle["spec_overruled_by_gcc_in_sample"] = self.oracle.get("spec_overruled_by_gcc_in_sample", 0) + 1
                     continue
+                def squeeze(toks):
+                    return [t.replace(" ", "") if t.startswith('"') else t for t in toks]
+                if squeeze(got) == squeeze(sa[1]):
+                    # only the white space inside a string made by # differs.  ISO C does not say whether
+                    # white space separates two tokens that became neighbours because an EMPTY argument was
+                    # substituted between them (gcc keeps a padding token there, S and CBI do not)
+                    self.oracle["white_space_only_differences"] = self.oracle.get("white_space_only_differences", 0) + 1
+                    self.oracle.setdefault("white_space_only_example", {"case": c, "spec": sa[1], "gcc": got})
+                    continue
                 self.oracle["disagreements"] += 1
                 bad.append({"case": c, "spec": sa[1], "gcc": got})
+        ws = self.oracle.get("white_space_only_differences", 0)
+        if ws * 100 > max(1, self.oracle["cases"]):
+            bad.append({"white_space_only_differences": ws, "example": self.oracle.get("white_space_only_example")})
         if bad:
             self.oracle["first_disagreement"] = bad[0]
             return [f"S disagrees with gcc -E -P on {len(bad)} of {self.oracle['cases']} cases: {json.dumps(bad[0])}"]
